@@ -2,17 +2,24 @@
 
 Read from /repo on every run:
   global_structures.h : R_KJ_DEG_MOL, JOULES_PER_CALORIE, PASCAL_PER_ATM, REF_PRES_PASCAL, MAX_ADD_EQUATIONS, MAX_LM, MAX_M
-  prep.cpp k_calc     : the whole expression (term order, the two 298.15 of the van 't Hoff term, the 1E-9 of the volume term,
-                        the `delta_p > 0` switch) — recognised as a shape, the literals extracted
-  read.cpp read_delta_h_only : `/= 1000.` for non-kilo units, `*= JOULES_PER_CALORIE` for calories
-  read.cpp read_named_logk   : ln_alpha1000 scales `i = T_A1; i < T_A6` (the sixth term is not scaled) by `1000. * LOG_10`
+  prep.cpp k_calc     : the whole computation (terms, operators, order of evaluation; the reference temperature that appears twice
+                        in the van 't Hoff term, the factor of the volume term, the `delta_p > 0` switch)
+  read.cpp read_delta_h_only : `/= 1000.` for non-kilo units, `*= JOULES_PER_CALORIE` for calories (in this order)
+  read.cpp read_named_logk   : ln_alpha1000 scales `T_A1 .. < T_A6` (the sixth term is not scaled) by `1000. * LOG_10`
   utilities.cpp calc_alk     : which master of a reaction token is looked up first (`secondary`, then `primary`)
   utilities.cpp under        : the cut-offs (-40, MAX_LM → MAX_M)
   structures.cpp trxn_combine: `equal(coef, 0.0, 1e-5)` (both occurrences must agree)
-  tidy.cpp select_log_k_expression / add_other_logk : shape "analytic terms win" (loops over T_A1..T_A6, `!= 0.0`)
+  tidy.cpp select_log_k_expression / add_other_logk : "analytic terms win"
   Phreeqc.cpp init    : convergence_tolerance, MIN_TOTAL
-`Properties/C01.lean` proves (`source_constants`, `alk_lookup_order`) that the models use exactly these; when the source changes,
-or its shape is no longer recognised (`recognised = false`), that obligation breaks (protocol P of DESIGN §3)."""
+Facts are read from a NORMAL FORM of each function (see `normal_form`): statement tree of tools/gen_store.py, reference aliases
+substituted, file-local helpers inlined one level (statement calls and single-`return` expression helpers), file-level and
+local named numeric constants (`static const`, `const`, `constexpr`, `#define`) replaced by their literals, NULL guards that only
+error/return/continue/break dropped, once-initialised pure locals replaced by their initialiser, every expression re-printed
+fully parenthesised from a precedence/associativity parse, parameters p0.. and locals v0.. named by position / first use.
+Spelling, names, redundant parentheses and such guards do not change the result; a coefficient, a term, an operator or the order
+of evaluation does.
+`Properties/C01.lean` proves (`source_constants`, `kCalc_source`, `dhToKJ_source`, `alk_lookup_order`) that the models use exactly
+these; when the source changes, or its shape is no longer recognised (`recognised = false`), that obligation breaks (protocol P)."""
 import re
 from fractions import Fraction
 
@@ -21,22 +28,405 @@ import vlib
 OUT = "SpeciationSrc"
 
 
-def _flat(txt):
-    txt = re.sub(r"/\*.*?\*/", " ", txt, flags=re.S)
-    txt = "\n".join(re.sub(r"//.*", "", ln) for ln in txt.splitlines())
-    return re.sub(r"\s+", " ", txt)
+# ------------------------------------------------------------------------------------------------ normal form of a function
+# Facts are read from a NORMAL FORM of the function, not from its spelling (approach of tools/gen_store.py, whose statement-tree
+# parser is reused): comments/preprocessor stripped; body parsed into a statement tree; reference aliases substituted; calls of
+# file-local helpers replaced by their bodies (statement level) or by their returned expression (expression level), one level;
+# `static const` / `const` / `constexpr` / `#define` numeric constants of the same file and `const` locals replaced by their
+# literals; guards `if (p == NULL) return/continue/break/error…;` dropped (they do not change what is computed for valid
+# pointers); every expression parsed (C precedence and associativity) and printed fully parenthesised, so redundant
+# parentheses and white space do not matter while the ORDER OF EVALUATION does; parameters and locals renamed p0,p1…/v0,v1…
+# in order of declaration. Only a change of a coefficient, a term, an operator or the evaluation order changes the result.
+import gen_store as GS
+
+TYPEWORDS = {"LDBLE", "double", "float", "int", "long", "size_t", "bool", "char", "unsigned", "short"}
+NUMRX = re.compile(r"^(?:\d+\.?\d*(?:[eE][+-]?\d+)?|\.\d+(?:[eE][+-]?\d+)?)[fFlLuU]*$")
+ETOK = re.compile(r'"(?:[^"\\]|\\.)*"|\'(?:[^\'\\]|\\.)*\'|(?:\d+\.?\d*|\.\d+)(?:[eE][+-]?\d+)?[fFlLuU]*|[A-Za-z_]\w*|->|\+\+|--|<=|>=|==|!=|&&|\|\||[-+*/]=|::|\S')
+BINPREC = [("||",), ("&&",), ("==", "!="), ("<", ">", "<=", ">="), ("+", "-"), ("*", "/", "%")]
+ASSIGN = ("=", "+=", "-=", "*=", "/=")
 
 
-def _func(txt, name):
-    """body of `name(...) {` up to the matching brace (definitions start at column 0 in this code base)"""
-    m = re.search(r"^%s\([^;{]*\)\s*(?:/\*.*?\*/\s*)*\{" % re.escape(name), txt, re.M | re.S)
-    if not m:
+class _P:
+    """precedence-climbing parser of a C expression → tuple AST"""
+    def __init__(self, text):
+        self.t = ETOK.findall(text)
+        self.i = 0
+
+    def peek(self):
+        return self.t[self.i] if self.i < len(self.t) else None
+
+    def take(self, x=None):
+        tok = self.peek()
+        if tok is None or (x is not None and tok != x):
+            raise ValueError(f"expected {x}, got {tok}")
+        self.i += 1
+        return tok
+
+    def expr(self):
+        lhs = self.binary(0)
+        if self.peek() in ASSIGN:
+            op = self.take()
+            return ("asg", op, lhs, self.expr())
+        if self.peek() == "?":
+            raise ValueError("ternary")
+        return lhs
+
+    def binary(self, lvl):
+        if lvl == len(BINPREC):
+            return self.unary()
+        lhs = self.binary(lvl + 1)
+        while self.peek() in BINPREC[lvl]:
+            op = self.take()
+            lhs = ("bin", op, lhs, self.binary(lvl + 1))
+        return lhs
+
+    def unary(self):
+        tok = self.peek()
+        if tok in ("-", "+", "!", "*", "&", "++", "--"):
+            self.take()
+            return ("un", tok, self.unary())
+        if tok == "(":
+            # cast: ( type-words [*] ) operand
+            j = self.i + 1
+            words = []
+            while j < len(self.t) and (self.t[j] in TYPEWORDS or self.t[j] in ("*", "const", "class", "struct")):
+                words.append(self.t[j])
+                j += 1
+            if words and j < len(self.t) and self.t[j] == ")" and any(w in TYPEWORDS for w in words):
+                self.i = j + 1
+                return ("cast", " ".join(words), self.unary())
+        return self.postfix()
+
+    def postfix(self):
+        tok = self.take()
+        if tok == "(":
+            e = self.expr()
+            self.take(")")
+        elif NUMRX.match(tok):
+            e = ("num", tok)
+        elif tok[0] in "\"'":
+            e = ("lit", tok)
+        elif re.match(r"[A-Za-z_]\w*$", tok):
+            e = ("id", tok)
+        else:
+            raise ValueError(f"unexpected token {tok}")
+        while True:
+            tok = self.peek()
+            if tok == "[":
+                self.take()
+                ix = self.expr()
+                self.take("]")
+                e = ("idx", e, ix)
+            elif tok == "(":
+                self.take()
+                args = []
+                if self.peek() != ")":
+                    args.append(self.expr())
+                    while self.peek() == ",":
+                        self.take()
+                        args.append(self.expr())
+                self.take(")")
+                e = ("call", e, args)
+            elif tok in ("->", "."):
+                self.take()
+                e = ("mem", tok, e, self.take())
+            elif tok in ("++", "--"):
+                self.take()
+                e = ("post", tok, e)
+            else:
+                return e
+
+
+def _show(e):
+    k = e[0]
+    if k in ("num", "lit", "id"):
+        return e[1]
+    if k == "bin":
+        return f"({_show(e[2])}{e[1]}{_show(e[3])})"
+    if k == "asg":
+        return f"{_show(e[2])}{e[1]}{_show(e[3])}"
+    if k == "un":
+        return f"({e[1]}{_show(e[2])})"
+    if k == "cast":
+        return f"(({e[1].replace('LDBLE', 'double')}){_show(e[2])})"
+    if k == "idx":
+        return f"{_show(e[1])}[{_show(e[2])}]"
+    if k == "call":
+        return f"{_show(e[1])}({','.join(_show(a) for a in e[2])})"
+    if k == "mem":
+        return f"{_show(e[2])}{e[1]}{e[3]}"
+    if k == "post":
+        return f"({_show(e[2])}{e[1]})"
+    raise ValueError(k)
+
+
+def _map_expr(e, f):
+    """bottom-up rewrite"""
+    k = e[0]
+    if k in ("num", "lit", "id"):
+        return f(e)
+    if k in ("bin", "asg"):
+        return f((k, e[1], _map_expr(e[2], f), _map_expr(e[3], f)))
+    if k in ("un", "cast", "post"):
+        return f((k, e[1], _map_expr(e[2], f)))
+    if k == "idx":
+        return f((k, _map_expr(e[1], f), _map_expr(e[2], f)))
+    if k == "call":
+        return f((k, _map_expr(e[1], f), [_map_expr(a, f) for a in e[2]]))
+    if k == "mem":
+        return f((k, e[1], _map_expr(e[2], f), e[3]))
+    return e
+
+
+DECLRX = re.compile(r"^((?:(?:const|static|unsigned|constexpr|class|struct) )*(?:LDBLE|double|float|int|long|size_t|bool|char|short|\w+ ?\*)"
+                    r"(?: ?\*)*) ?(\w+)(?:=(.*))?$")
+
+
+def _parse_text(text):
+    """canonical statement / condition text → ('decl', type, name, ast|None) | ('ret', ast|None) | ('kw', text) | ('e', ast) | ('raw', text)"""
+    try:
+        if text in ("break", "continue"):
+            return ("kw", text)
+        m = re.match(r"^return\b ?(.*)$", text)
+        if m:
+            return ("ret", _P(m.group(1)).expr() if m.group(1) else None)
+        m = DECLRX.match(text)
+        if m and m.group(2) not in TYPEWORDS and "(" not in m.group(1):
+            if m.group(3) is None and "," in text:
+                return ("raw", text)
+            init = m.group(3)
+            if init is not None and "," in init and GS.scan(init, 0, ",") < len(init):
+                return ("raw", text)
+            return ("decl", m.group(1), m.group(2), _P(init).expr() if init is not None else None)
+        p = _P(text)
+        e = p.expr()
+        if p.peek() is not None:
+            return ("raw", text)
+        return ("e", e)
+    except (ValueError, IndexError):
+        return ("raw", text)
+
+
+def _unparse(node):
+    k = node[0]
+    if k == "decl":
+        return f"{node[1]} {node[2]}" + (f"={_show(node[3])}" if node[3] is not None else "")
+    if k == "ret":
+        return "return" + (f" {_show(node[1])}" if node[1] is not None else "")
+    if k == "e":
+        return _show(node[1])
+    return node[1]
+
+
+def _file_numeric_constants(raw):
+    """numeric constants defined in the file itself: static const / const / constexpr scalars and #define NAME literal"""
+    tab = {}
+    for m in re.finditer(r"(?m)^[ \t]*(?:static\s+)?(?:const|constexpr)\s+(?:static\s+)?(?:LDBLE|double|float|int|long|size_t)\s+"
+                         r"(\w+)\s*=\s*([-+]?(?:\d+\.?\d*|\.\d+)(?:[eE][+-]?\d+)?)[fFlL]?\s*;", raw):
+        tab[m.group(1)] = m.group(2)
+    for m in re.finditer(r"(?m)^[ \t]*#\s*define\s+(\w+)\s+\(?([-+]?(?:\d+\.?\d*|\.\d+)(?:[eE][+-]?\d+)?)\)?[ \t]*(?:/\*.*)?$", raw):
+        tab[m.group(1)] = m.group(2)
+    return tab
+
+
+NULLTEST = re.compile(r"^(?:\(?([\w.>\-\[\]]+)\)?==(?:NULL|nullptr|0)|(?:NULL|nullptr)==\(?([\w.>\-\[\]]+)\)?|!\(?([\w.>\-\[\]]+)\)?)$")
+ERRSTMT = re.compile(r"^(?:return\b.*|continue|break|input_error\+\+|\+\+input_error|parse_error\+\+|error_string=.*|error_msg\(.*\)|"
+                     r"warning_msg\(.*\)|malloc_error\(\)|assert\(.*\))$")
+
+
+def _drop_null_guards(node):
+    if node is None:
         return None
-    i, depth = m.end(), 1
-    while i < len(txt) and depth:
-        depth += {"{": 1, "}": -1}.get(txt[i], 0)
-        i += 1
-    return txt[m.end():i]
+    k = node[0]
+    if k == "block":
+        out = []
+        for n in node[1]:
+            if n[0] == "if" and n[3] is None and NULLTEST.match(n[1].replace(" ", "")):
+                body = GS.stmts(n[2])
+                if body and all(b[0] == "simple" and ERRSTMT.match(b[1]) for b in body) and \
+                        any(re.match(r"^(return\b|continue$|break$)", b[1]) for b in body):
+                    continue
+            out.append(_drop_null_guards(n))
+        return ("block", out)
+    if k == "if":
+        return ("if", node[1], _drop_null_guards(node[2]), _drop_null_guards(node[3]))
+    if k == "loop":
+        return ("loop", node[1], node[2], _drop_null_guards(node[3]))
+    if k == "switch":
+        return ("switch", node[1], _drop_null_guards(node[2]))
+    return node
+
+
+def _single_return_helper(src, name):
+    """(params, ast) of a file-local non-member function whose body is `return expr;` (after guard dropping)"""
+    for m in re.finditer(r"(?<![\w:.>])" + re.escape(name) + r"\s*\(", src):
+        j = GS.scan(src, m.end(), ")")
+        k = GS.skip_ws(src, j + 1)
+        if k < len(src) and src[k] == "{":
+            if re.search(r"::\s*$", src[max(0, m.start() - 200):m.start()]):
+                return None
+            body, _ = GS.parse_stmt(src, k, name)
+            st = GS.stmts(_drop_null_guards(body))
+            if len(st) == 1 and st[0][0] == "simple":
+                r = _parse_text(st[0][1])
+                if r[0] == "ret" and r[1] is not None:
+                    params = [re.findall(r"\w+", q)[-1] for q in GS.split_args(src[m.end():j], angles=True)]
+                    return params, r[1]
+            return None
+    return None
+
+
+def normal_form(raw, name):
+    """canonical text of what function `name` of file text `raw` does (see the comment above); None when not found"""
+    src = GS.strip_comments(raw)
+    try:
+        params_txt, body = GS.function_def(src, name)
+    except GS.TranslatorError:
+        return None
+    body = _drop_null_guards(GS.inline_helpers(GS.resolve_aliases(body), src, name))
+    consts = _file_numeric_constants(raw)
+    params = [re.findall(r"\w+", q)[-1] for q in GS.split_args(params_txt, angles=True) if re.findall(r"\w+", q) and q.strip() != "void"]
+    ren = {p: f"p{i}" for i, p in enumerate(params)}
+    nloc = [0]
+    local_const = {}
+    inits = {}
+
+    def rewrite(e):
+        if e[0] == "id":
+            if e[1] in ren:
+                return ("id", ren[e[1]])
+            if e[1] in local_const:
+                return local_const[e[1]]
+            if e[1] in consts and e[1] not in ren:
+                return _num(consts[e[1]])
+        if e[0] == "call" and e[1][0] == "id":
+            h = _single_return_helper(src, e[1][1])
+            if h and len(h[0]) == len(e[2]):
+                table = dict(zip(h[0], e[2]))
+                return _map_expr(h[1], lambda x: table.get(x[1], _num(consts[x[1]]) if x[1] in consts else x) if x[0] == "id" else x)
+        return e
+
+    def text(t):
+        node = _parse_text(t)
+        if node[0] == "decl":
+            init = _map_expr(node[3], rewrite) if node[3] is not None else None
+            if "const" in node[1].split() and init is not None and init[0] == "num":
+                local_const[node[2]] = init           # `const LDBLE x = 298.15;` → substituted, declaration dropped
+                return None
+            ren[node[2]] = f"L{nloc[0]}_"
+            nloc[0] += 1
+            ty = " ".join("double" if w == "LDBLE" else w for w in node[1].split() if w not in ("const", "static"))
+            if init is not None and _pure(init):
+                inits[ren[node[2]]] = init
+            return _unparse(("decl", ty, ren[node[2]], init))
+        if node[0] == "ret":
+            return _unparse(("ret", _map_expr(node[1], rewrite) if node[1] is not None else None))
+        if node[0] == "e":
+            return _unparse(("e", _map_expr(node[1], rewrite)))
+        if node[0] == "raw":
+            # multi-declarations etc.: rename word-wise
+            m = re.match(r"^((?:LDBLE|double|float|int|long|size_t|bool|char|class \w+ ?\*|struct \w+ ?\*) ?)(.*)$", t)
+            if m and "(" not in m.group(2).split("=")[0]:
+                for item in GS.split_args(m.group(2)):
+                    nm = re.match(r"^\*?(\w+)", item.strip())
+                    if nm and nm.group(1) not in ren:
+                        ren[nm.group(1)] = f"L{nloc[0]}_"
+                        nloc[0] += 1
+            rx = re.compile(r"(?<![\w.>])(" + "|".join(map(re.escape, ren)) + r")\b") if ren else None
+            return rx.sub(lambda mm: ren[mm.group(1)], t) if rx else t
+        return t
+
+    def walk(n):
+        if n is None:
+            return None
+        k = n[0]
+        if k == "block":
+            out = []
+            for x in n[1]:
+                y = walk(x)
+                if y is not None:
+                    out.append(y)
+            return ("block", out)
+        if k == "if":
+            return ("if", text(n[1]), walk(n[2]), walk(n[3]))
+        if k == "loop":
+            hdr = ";".join((text(h) or "") if h else "" for h in _split_top(n[2], ";")) if n[1] == "for" else text(n[2])
+            return ("loop", n[1], hdr, walk(n[3]))
+        if k == "switch":
+            return ("switch", text(n[1]), walk(n[2]))
+        if k == "simple":
+            t = text(n[1])
+            return None if t is None else ("simple", t)
+        return n
+
+    out = GS.ser(walk(body))
+    # locals that are initialised once by a pure expression and never written again are replaced by that expression
+    # (`LDBLE me = tempk * R; … / (LOG_10 * me)` and `… / (LOG_10 * (tempk * R))` are the same computation)
+    changed = True
+    while changed:
+        changed = False
+        for nm, init in list(inits.items()):
+            uses = len(re.findall(re.escape(nm), out))
+            if re.search(r"(?:&|\+\+|--)\(?" + re.escape(nm) + r"\b|" + re.escape(nm) + r"\)?(?:\+\+|--|[-+*/]?=(?!=))", out.replace(f" {nm}=", " #=", 1)):
+                del inits[nm]
+                continue
+            decl = re.search(r"(?:[\w ]+?[ *]+)" + re.escape(nm) + r"=[^;]*;", out)
+            if not decl:
+                del inits[nm]
+                continue
+            out = out[:decl.start()] + out[decl.end():]
+            out = out.replace(nm, _show(init))
+            del inits[nm]
+            changed = True
+    # rename the remaining locals by order of first use
+    order = []
+    for m in re.finditer(r"L\d+_", out):
+        if m.group(0) not in order:
+            order.append(m.group(0))
+    for i, nm in enumerate(order):
+        out = out.replace(nm, f"v{i}")
+    return out
+
+
+PURE_CALLS = {"log10", "log", "exp", "sqrt", "pow", "fabs"}
+
+
+def _pure(e):
+    ok = [True]
+
+    def f(x):
+        if x[0] == "call" and not (x[1][0] == "id" and x[1][1] in PURE_CALLS):
+            ok[0] = False
+        if x[0] in ("asg", "post") or (x[0] == "un" and x[1] in ("++", "--", "&", "*")) or x[0] == "lit":
+            ok[0] = False
+        return x
+    _map_expr(e, f)
+    return ok[0]
+
+
+def _num(txt):
+    """numeric literal → AST (a negative literal is a negation of a positive one)"""
+    txt = txt.strip()
+    if txt.startswith("-"):
+        return ("un", "-", ("num", txt[1:]))
+    return ("num", txt.lstrip("+"))
+
+
+def _split_top(s, sep):
+    out, i = [], 0
+    while i <= len(s):
+        j = GS.scan(s, i, sep)
+        out.append(s[i:j])
+        i = j + 1
+    return out
+
+
+def _tmpl(template):
+    """shape template → regex: ⟦x⟧ = a numeric literal (captured), ⟪a|b⟫ = one of the alternatives (captured)"""
+    out = re.escape(template)
+    out = re.sub(r"⟦\w*⟧", r"([0-9.]+(?:[eE][+-]?[0-9]+)?)", out)
+    out = re.sub(r"⟪([^⟫]*)⟫", lambda m: "(" + m.group(1).replace(r"\|", "|") + ")", out)
+    return out
 
 
 def extract():
@@ -55,87 +445,82 @@ def extract():
 
     for n in ("R_KJ_DEG_MOL", "JOULES_PER_CALORIE", "PASCAL_PER_ATM", "REF_PRES_PASCAL", "MAX_ADD_EQUATIONS", "MAX_LM", "MAX_M"):
         define(n)
-    # ---- k_calc
+    # ---- k_calc (normal form: locals inlined, constants resolved, NULL guards dropped, canonical parentheses)
     prep = (src / "prep.cpp").read_text()
-    body = _func(prep, "k_calc")
-    shape = (r"LDBLE me = tempk \* R_KJ_DEG_MOL; LDBLE delta_p = presPa - REF_PRES_PASCAL; LDBLE lk = l_logk\[logK_T0\] "
-             r"- l_logk\[delta_h\] \* \(([0-9.]+) - tempk\) / \(LOG_10 \* me \* ([0-9.]+)\) \+ l_logk\[T_A1\] \+ l_logk\[T_A2\] \* tempk "
-             r"\+ l_logk\[T_A3\] / tempk \+ l_logk\[T_A4\] \* log10\(tempk\) \+ l_logk\[T_A5\] / \(tempk \* tempk\) "
-             r"\+ l_logk\[T_A6\] \* tempk \* tempk; if \(delta_p > 0\) lk -= l_logk\[delta_v\] \* ([0-9.eE+-]+) \* delta_p / "
-             r"\(LOG_10 \* me\); return lk;")
-    m = re.search(shape, _flat(body)) if body else None
-    if not m or m.group(1) != m.group(2):
+    nf = normal_form(prep, "k_calc") or ""
+    shape = _tmpl("{double v0=(((((((p0[logK_T0]-((p0[delta_h]*(⟦a⟧-p1))/((LOG_10*(p1*R_KJ_DEG_MOL))*⟦b⟧)))+p0[T_A1])+(p0[T_A2]*p1))"
+                  "+(p0[T_A3]/p1))+(p0[T_A4]*log10(p1)))+(p0[T_A5]/(p1*p1)))+((p0[T_A6]*p1)*p1));if(((p2-REF_PRES_PASCAL)>0))"
+                  "{v0-=(((p0[delta_v]*⟦c⟧)*(p2-REF_PRES_PASCAL))/(LOG_10*(p1*R_KJ_DEG_MOL)));}return v0;}")
+    m = re.fullmatch(shape, nf)
+    if not m or Fraction(m.group(1)) != Fraction(m.group(2)):
         bad.append("k_calc")
         out["KCALC_TREF"], out["KCALC_VFACTOR"] = Fraction(0), Fraction(0)
     else:
         out["KCALC_TREF"], out["KCALC_VFACTOR"] = Fraction(m.group(1)), Fraction(m.group(3))
-        where.append(f"prep.cpp:{prep[:prep.find(body)].count(chr(10)) + 1} k_calc")
+        where.append("prep.cpp k_calc")
     # ---- delta_h units
     read = (src / "read.cpp").read_text()
-    body = _func(read, "read_delta_h_only")
-    fb = _flat(body) if body else ""
-    m1 = re.search(r'if \(strstr\(token, "k"\) != token\) \{ kilo = FALSE; \*delta_h /= ([0-9.]+); \}', fb)
-    m2 = re.search(r'if \(strstr\(token, "c"\) != NULL\) \{ \*delta_h \*= JOULES_PER_CALORIE; joul = FALSE; \}', fb)
-    if not (m1 and m2 and fb.find(m1.group(0)) < fb.find(m2.group(0))):
+    nf = normal_form(read, "read_delta_h_only") or ""
+    V = r"(?:v\d+|p\d+)"
+    m = re.search(r'if\(\(strstr\((%s),"k"\)!=\1\)\)\{(%s)=FALSE;\(\*p1\)/=([0-9.]+(?:[eE][+-]?[0-9]+)?);\}'
+                  r'if\(\(strstr\(\1,"c"\)!=NULL\)\)\{\(\*p1\)\*=JOULES_PER_CALORIE;(%s)=FALSE;\}' % (V, V, V), nf)
+    if not m:
         bad.append("read_delta_h_only")
         out["DH_KILO"] = Fraction(0)
     else:
-        out["DH_KILO"] = Fraction(m1.group(1))
+        out["DH_KILO"] = Fraction(m.group(3))
         where.append("read.cpp read_delta_h_only")
     # ---- ln_alpha1000
-    body = _func(read, "read_named_logk")
-    fb = _flat(body) if body else ""
-    m = re.search(r"for \(i = T_A1; i (<=?) T_A6; i\+\+\) \{ logk_ptr->log_k\[i\] /= ([0-9.]+) \* LOG_10; \}", fb)
+    nf = normal_form(read, "read_named_logk") or ""
+    m = re.search(r"for\((%s)=T_A1;\(\1(<=?)T_A6\);\(\1\+\+\)\)\{(%s)->log_k\[\1\]/=\(([0-9.]+)\*LOG_10\);\}" % (V, V), nf)
     if not m:
         bad.append("ln_alpha1000")
         out["LN_ALPHA_DIV"], out["LN_ALPHA_SIXTH"] = Fraction(0), False
     else:
-        out["LN_ALPHA_DIV"], out["LN_ALPHA_SIXTH"] = Fraction(m.group(2)), m.group(1) == "<="
+        out["LN_ALPHA_DIV"], out["LN_ALPHA_SIXTH"] = Fraction(m.group(4)), m.group(2) == "<="
         where.append("read.cpp read_named_logk ln_alpha1000")
     # ---- calc_alk lookup order
     util = (src / "utilities.cpp").read_text()
-    body = _func(util, "calc_alk")
-    fb = _flat(body) if body else ""
-    m = re.search(r"master_ptr = r_token->s->(secondary|primary); if \(master_ptr == NULL\) \{ master_ptr = r_token->s->(secondary|primary); \}"
-                  r".*return_value \+= r_token->coef \* master_ptr->alk;", fb)
+    nf = normal_form(util, "calc_alk") or ""
+    m = re.fullmatch(_tmpl("{v0=0.0;class rxn_token* v1=(&p0.token[1]);while((v1->s!=NULL)){v2=v1->s->⟪secondary|primary⟫;if((v2==NULL))"
+                           "{v2=v1->s->⟪secondary|primary⟫;}v0+=(v1->coef*v2->alk);(v1++);}return v0;}"), nf)
     if not m or m.group(1) == m.group(2):
         bad.append("calc_alk")
         out["ALK_SECONDARY_FIRST"] = False
     else:
         out["ALK_SECONDARY_FIRST"] = m.group(1) == "secondary"
-        where.append(f"utilities.cpp:{util[:util.find(body)].count(chr(10)) + 1} calc_alk")
+        where.append("utilities.cpp calc_alk")
     # ---- under
-    body = _func(util, "under")
-    fb = _flat(body) if body else ""
-    m = re.search(r"if \(xval < (-?[0-9.]+)\) \{ return \(0\.0\); \} if \(xval > MAX_LM\) \{ return \( ?MAX_M ?\); \} "
-                  r"return \(pow ?\(\(LDBLE\) 10\.0, xval\)\);", fb)
+    nf = normal_form(util, "under") or ""
+    m = re.fullmatch(_tmpl("{if((p0<(-⟦m⟧))){return 0.0;}if((p0>MAX_LM)){return MAX_M;}return pow(((double)10.0),p0);}"), nf)
     if not m:
         bad.append("under")
         out["UNDER_MIN"] = Fraction(0)
     else:
-        out["UNDER_MIN"] = Fraction(m.group(1))
+        out["UNDER_MIN"] = -Fraction(m.group(1))
         where.append("utilities.cpp under")
     # ---- trxn_combine
     st = (src / "structures.cpp").read_text()
-    body = _func(st, "trxn_combine")
-    occ = re.findall(r"equal\(trxn\.token\[j\]\.coef, 0\.0, ([0-9.eE+-]+)\)", _flat(body) if body else "")
-    if len(occ) != 2 or len(set(occ)) != 1:
+    nf = normal_form(st, "trxn_combine") or ""
+    occ = re.findall(r"trxn\.token\[(%s)\]\.coef\+=trxn\.token\[%s\]\.coef;if\(equal\(trxn\.token\[\1\]\.coef,0\.0,"
+                     r"([0-9.]+(?:[eE][+-]?[0-9]+)?)\)\)\{\(\1--\);\}" % (V, V), nf)
+    if len(occ) != 2 or len(set(o[1] for o in occ)) != 1:
         bad.append("trxn_combine")
         out["COMBINE_TOL"] = Fraction(0)
     else:
-        out["COMBINE_TOL"] = Fraction(occ[0])
+        out["COMBINE_TOL"] = Fraction(occ[0][1])
         where.append("structures.cpp trxn_combine")
     # ---- select_log_k_expression / add_other_logk: "analytic terms win"
     tidy = (src / "tidy.cpp").read_text()
-    b1, b2 = _func(tidy, "select_log_k_expression"), _func(tidy, "add_other_logk")
-    f1, f2 = (_flat(b1) if b1 else ""), (_flat(b2) if b2 else "")
-    ok1 = re.search(r"for \(j = T_A1; j <= T_A6; j\+\+\) \{ if \(source_k\[j\] != 0\.0\) \{ analytic = true; break; \} \} if \(analytic\) "
-                    r"\{ target_k\[logK_T0\] = 0\.0; target_k\[delta_h\] = 0\.0; for \(j = T_A1; j <= T_A6; j\+\+\) \{ target_k\[j\] = "
-                    r"source_k\[j\]; \} \} else \{ target_k\[logK_T0\] = source_k\[logK_T0\]; target_k\[delta_h\] = source_k\[delta_h\]; "
-                    r"for \(j = T_A1; j <= T_A6; j\+\+\) \{ target_k\[j\] = 0\.0; \} \}", f1)
-    ok2 = re.search(r"if \(analytic\) \{ for \(j = T_A1; j <= T_A6; j\+\+\) \{ source_k\[j\] \+= logk_ptr->log_k\[j\] \* coef; \} \} else "
-                    r"\{ source_k\[logK_T0\] \+= logk_ptr->log_k\[logK_T0\] \* coef; source_k\[delta_h\] \+= logk_ptr->log_k\[delta_h\] \* coef; \}",
-                    f2)
+    f1, f2 = normal_form(tidy, "select_log_k_expression") or "", normal_form(tidy, "add_other_logk") or ""
+    ok1 = re.fullmatch(_tmpl("{v0=false;for(v1=T_A1;(v1<=T_A6);(v1++)){if((p0[v1]!=0.0)){v0=true;break;}}if(v0){p1[logK_T0]=0.0;"
+                             "p1[delta_h]=0.0;for(v1=T_A1;(v1<=T_A6);(v1++)){p1[v1]=p0[v1];}}else{p1[logK_T0]=p0[logK_T0];"
+                             "p1[delta_h]=p0[delta_h];for(v1=T_A1;(v1<=T_A6);(v1++)){p1[v1]=0.0;}}for(v1=delta_v;"
+                             "(v1<MAX_LOG_K_INDICES);(v1++)){p1[v1]=p0[v1];}return OK;}"), f1)
+    ok2 = re.search(r"(%s)=false;for\((%s)=T_A1;\(\2<=T_A6\);\(\2\+\+\)\)\{if\(\((%s)->log_k\[\2\]!=0\.0\)\)\{\1=true;break;\}\}"
+                    r"if\(\1\)\{for\(\2=T_A1;\(\2<=T_A6\);\(\2\+\+\)\)\{p0\[\2\]\+=\(\3->log_k\[\2\]\*(%s)\);\}\}"
+                    r"else\{p0\[logK_T0\]\+=\(\3->log_k\[logK_T0\]\*\4\);p0\[delta_h\]\+=\(\3->log_k\[delta_h\]\*\4\);\}"
+                    r"for\(\2=delta_v;\(\2<MAX_LOG_K_INDICES\);\(\2\+\+\)\)\{p0\[\2\]\+=\(\3->log_k\[\2\]\*\4\);\}" % (V, V, V, V), f2)
     out["SELECT_SHAPE"] = bool(ok1 and ok2)
     if not (ok1 and ok2):
         bad.append("select_log_k_expression/add_other_logk")
